@@ -10,7 +10,7 @@ CONSTANT Debug
 VARIABLE l
 tvars == <<vars, l>>
 
-Chk(nm, cond) == cond \/ (Debug /\ PrintT(<<"MISMATCH", l, nm>>))
+Chk(nm, cond) == IF cond THEN TRUE ELSE (Debug /\ PrintT(<<"MISMATCH", l, nm>>))
 Ev == Rec[l]
 Has(r, f) == f \in DOMAIN r
 P == Ev.p
@@ -42,7 +42,7 @@ TReset == /\ IsEvent("reset")
           /\ h' = [p \in Proc |-> NoHandle] /\ lost' = {} /\ nput' = 0
           /\ last' = Obs("-", "init", "ok")
 
-TOpen == IsEvent("open") /\ (Open(P) \/ OpenBusy(P)) /\ Matches /\ Observed(Ev.obs)
+TOpen == IsEvent("open") /\ (Open(P) \/ OpenReplay(P) \/ OpenBusy(P)) /\ Matches /\ Observed(Ev.obs)
 TOpenRO == IsEvent("open_ro") /\ (OpenRO(P) \/ OpenROBusy(P)) /\ Matches /\ Observed(Ev.obs)
 TPut == IsEvent("put") /\ Put(P) /\ Matches /\ Observed(Ev.obs)
 TInPlace == IsEvent("inplace") /\ InPlace(P) /\ Matches /\ Observed(Ev.obs)
